@@ -680,6 +680,47 @@ def install():
 
     _wrap_method(MD.Models, "reset_models", None, reset_after)
 
+    # ---- the five subproblem solvers as the framework calls them (C15 / C16 on real-run inputs)
+    def _wrap_sub(name, kind):
+        orig = getattr(FW, name)
+        if getattr(orig, "_verif_wrapped", False):
+            return
+
+        @functools.wraps(orig)
+        def wrapper(*a, **kw):
+            run = cur()
+            if run is None or "sub" not in run.want:
+                return orig(*a, **kw)
+            args = [np.array(x, float, copy=True) if isinstance(x, np.ndarray) else x for x in a]
+            exc = "none"
+            s = None
+            try:
+                s = orig(*a, **kw)
+                return s
+            except BaseException as ex:
+                exc = type(ex).__name__
+                raise
+            finally:
+                try:
+                    from . import subrec
+                    rec = subrec.measure(kind, args, kw, s, exc)
+                    if rec is not None:
+                        if not hasattr(run, "subcalls"):
+                            run.subcalls = []
+                        if len(run.subcalls) < 400:
+                            run.subcalls.append(rec)
+                except Exception as ex2:  # pragma: no cover
+                    run.emit("RecErr", what="Sub:" + type(ex2).__name__)
+
+        wrapper._verif_wrapped = True
+        setattr(FW, name, wrapper)
+
+    for _n, _k in (("tangential_byrd_omojokun", "tangential"),
+                   ("constrained_tangential_byrd_omojokun", "constrained_tangential"),
+                   ("normal_byrd_omojokun", "normal"), ("cauchy_geometry", "cauchy_geometry"),
+                   ("spider_geometry", "spider_geometry")):
+        _wrap_sub(_n, _k)
+
     _installed[0] = True
 
 
@@ -896,4 +937,5 @@ def record_call(fun, x0, args=(), bounds=None, constraints=(), callback=None, op
                      nfev=-1, nit=-1, well=False, hashist=False, hf=[], hc=[], merit=[], pen=K(0.0),
                      resol=K(float("nan")), rhoend=K(float("nan")), hasfw=False, recerr=type(ex).__name__)
     hdr["warnings"] = [w for w in wlist][:5]
-    return {"hdr": hdr, "ev": run.events, "result": res, "exc": exc, "evals": run.evals}
+    return {"hdr": hdr, "ev": run.events, "result": res, "exc": exc, "evals": run.evals,
+            "sub": getattr(run, "subcalls", [])}
